@@ -30,3 +30,12 @@ pub fn update_info(
 /// The real BMP call site `PeerStates::add_peer_config` (find_existing_peer,
 /// else register + update_info) behind a small wrapper.
 pub use crate::units::bmp_tcp_in::verif_hooks_c14::PeerTable;
+
+/// `Register::find_or_register_bmp_router()`: what `bmp_tcp_in/unit.rs` calls
+/// for every accepted connection (PipeBmp).
+pub fn find_or_register_bmp_router(
+    r: &Register,
+    query: IngressInfo,
+) -> IngressId {
+    r.find_or_register_bmp_router(query)
+}
